@@ -228,11 +228,26 @@ TAG_EXPECT = [(0, 'A', 'Constructor'), (0, 'B', 'Constructor'), (4, 'f', 'Functi
               (10, 'B', 'Constructor'), (12, 'B', 'Constructor'), (12, 'A', 'Constructor')]
 
 
+TAG_WS_MAIN = 'import shapes\nimport shapes.{Square}\npub fn main() {\n  let c = shapes.Circle(2)\n  let d = Square(3)\n  case c { shapes.Circle(r) -> shapes.area(c)  Square(s) -> s }\n}\n'
+TAG_WS = {'files': [{'path': '/app/src/main.gleam', 'text': TAG_WS_MAIN, 'root': 0},
+                    {'path': '/app/src/shapes.gleam', 'text': 'pub type Shape { Circle(Int) Square(Int) }\npub fn area(s: Shape) { 1 }\n', 'root': 0}],
+          'roots': [{'path': '/app', 'local': True, 'deps': []}], 'file': 0, 'range': None}
+# module-qualified constructors and functions of another module, in expressions and patterns
+TAG_WS_EXPECT = [(3, 'Circle', 'Constructor'), (4, 'Square', 'Constructor'), (5, 'Circle', 'Constructor'), (5, 'area', 'Function'), (5, 'Square', 'Constructor')]
+
+
 def native_tags(oracle):
     r = oracle.ask('semhl', json.dumps({'text': TAG_TEXT, 'range': None}))
     if not isinstance(r, dict) or 'semhl' not in r:
         return None, r
     got = [(TAG_TEXT[:s].count('\n'), TAG_TEXT[s:e], t) for s, e, t in r['semhl']]
+    r2 = oracle.ask('semhl', json.dumps(TAG_WS))
+    if not isinstance(r2, dict) or 'semhl' not in r2:
+        return None, r2
+    got2 = [(TAG_WS_MAIN[:s].count('\n'), TAG_WS_MAIN[s:e], t) for s, e, t in r2['semhl']]
+    if got == TAG_EXPECT and got2 != TAG_WS_EXPECT:
+        # reported in the vocabulary of the single-file fixture: the caller compares with TAG_EXPECT
+        return [('two-module workspace %r' % TAG_WS_MAIN, 'tagged', str(got2)), ('expected', '', str(TAG_WS_EXPECT))], r2
     return got, r
 
 
